@@ -74,6 +74,33 @@ Theorem learn_moves_trained : forall (st : list (name * nat)) (s : store) (a : a
 Proof. exact learn_moves_lemma. Qed.
 Print Assumptions learn_moves_trained.
 
+(* MUTATE, THEN LEARN — for every well-formed registry, kind, shape list and store: after the mutation of a coherent
+   individual whose optimizers are registered for network attributes it has, one learn step writes every cell that an
+   optimizer of the MUTATED individual references (mutation_coherent + the invariance of the network attributes and of
+   allocatedness under every mutation + learn_moves_trained). *)
+Theorem learn_after_mutation_moves :
+  forall (k : mkind) (sh : list netshape) (label : N) (st : list (name * nat)) (s : store) (a : agent),
+  wf_registry (a_reg a) = true -> Coherent a ->
+  (forall c n, In c (r_opts (a_reg a)) -> In n (oc_nets c) -> In n (net_names a)) ->
+  Forall (fun l => l < s_next s) (agent_locs a) ->
+  let x' := mutate_agent k sh label (s, a) in
+  forall o l, In o (a_opts (snd x')) -> In l (o_refs o) ->
+  s_fresh (fst x') <= rd (fst (learn_agent st x')) l.
+Proof. exact learn_after_mutation_moves_lemma. Qed.
+Print Assumptions learn_after_mutation_moves.
+
+(* every mutation kind keeps the set of network attributes of the individual (no network appears or disappears) *)
+Theorem mutation_keeps_network_attributes : forall (k : mkind) (sh : list netshape) (label : N) (x : lstate),
+  net_names (snd (mutate_agent k sh label x)) = net_names (snd x).
+Proof. exact (fun k sh label => akeep_mutate_agent k sh label). Qed.
+Print Assumptions mutation_keeps_network_attributes.
+
+(* members for which Mutations.mutation has no draw are returned exactly as they were (record and position) *)
+Theorem mutation_leaves_undrawn_members : forall (ds : list draw) (w : world) (j : nat),
+  (length ds <= j)%nat -> nth_error (w_pop (mutate_pop ds w)) j = nth_error (w_pop w) j.
+Proof. exact (fun ds w j H => mutate_from_after ds 0%nat w j H). Qed.
+Print Assumptions mutation_leaves_undrawn_members.
+
 (* POPULATION SHAPE — Mutations.mutation(population) returns as many members, in the same order (same index sequence), and
    member j reports the label of the mutation it received. *)
 Theorem population_shape : forall (ds : list draw) (w : world),
@@ -226,6 +253,12 @@ Theorem coherent_b_sound : forall a : agent, coherent_b a = true -> Coherent a.
 Proof. exact coherent_b_sound. Qed.
 Print Assumptions coherent_b_sound.
 
+(* ... and conversely: the executable test is EXACTLY the predicate (so "all_coherent_b = true on every state of every
+   history", which K demands of the model next to the agreement with the implementation, is the invariant of the theorems). *)
+Theorem coherent_b_exact : forall a : agent, coherent_b a = true <-> Coherent a.
+Proof. exact coherent_b_iff. Qed.
+Print Assumptions coherent_b_exact.
+
 (* REFUTED — the pinned rl_hyperparam_mutation (before fix 9c077e4: only the FIRST optimizer using the mutated learning
    rate is re-created) is not coherent: on a TD3-like registry the second critic's optimizer keeps the old learning rate;
    the repaired mutation of the same individual is coherent. *)
@@ -260,6 +293,14 @@ Proof.
   cbv zeta. split; [apply wf_registry_WfReg; reflexivity|]. split.
   - apply Forall_forall. intros l Hl. apply N.ltb_lt. revert l Hl. apply Forall_forall. vm_compute. repeat constructor.
   - intros s Hs. cbn in Hs. unfold has_key. cbn. intuition (subst; tauto).
+Qed.
+Example ex_learn_after_mutation_hypotheses :
+  let a := ex_agent 0 0 in
+  wf_registry (a_reg a) = true /\ Coherent a /\
+  (forall c n, In c (r_opts (a_reg a)) -> In n (oc_nets c) -> In n (net_names a)).
+Proof.
+  cbv zeta. split; [reflexivity|]. split; [apply coherent_b_sound; vm_compute; reflexivity|].
+  intros c n Hc Hn. cbn in Hc. destruct Hc as [<-|[<-|[<-|[]]]]; cbn in Hn; destruct Hn as [<-|[]]; cbn; tauto.
 Qed.
 Example ex_share_mutations_coherent :
   all_coherent_b (run ex_world_share [Mutate 0 MArch [mkShape 1 5 2 1 0 0 1 0; mkShape 3 6 2 1 0 0 1 0] 5;
